@@ -653,7 +653,9 @@ def _edge_class_fn(graph):
     return cls
 
 
-def replay_class_tree(p: Program, graph: tlc.Graph, *, seed=0, deadline=None, covered=None, all_edges=False):
+def replay_class_tree(p: Program, graph: tlc.Graph, *, seed=0, deadline=None, covered=None, all_edges=False, adapter=None):
+    # adapter (optional; used by the in-memory stage of C10 / C39): dict with make(p, seed) -> impl, apply(impl, label), expect(node) -> dict,
+    # observe(impl) -> dict, save(impl) -> state, load(impl, state); default: Impl / COMPARE / the database only
     """One representative edge (a shallowest one) of every edge CLASS - (action, first argument, job / update / cancellation state of
     the source) - executed on the real code, by a depth-first traversal of the breadth-first tree that rewinds the database in place
     (Engine.save_state / load_state) instead of replaying prefixes: every tree node and every representative edge is executed once.
@@ -698,11 +700,25 @@ def replay_class_tree(p: Program, graph: tlc.Graph, *, seed=0, deadline=None, co
     covered = covered if covered is not None else set()
     mism, steps, done = [], 0, 0
     replay_class_tree.paths = 0
-    impl = Impl(p, seed=seed)
+    if adapter is None:
+        def _apply(impl, lab):
+            name, args = tlc.parse_action_label(lab)
+            impl.apply(name, [str(a) if isinstance(a, tlaval.Sym) else a for a in args])
+
+        def _observe(impl):
+            got = impl.project()
+            o = {x: got[x] for x in COMPARE}
+            if "_extra" in got:
+                o["_extra"] = got["_extra"]
+            return o
+
+        adapter = {"make": lambda p_, seed_: Impl(p_, seed=seed_), "apply": _apply, "expect": spec_view, "observe": _observe,
+                   "save": lambda impl: impl.w.eng.save_state(), "load": lambda impl, st: impl.w.eng.load_state(st)}
+    impl = adapter["make"](p, seed)
     try:
         root = graph.init[0]
-        got = impl.project()
-        d0 = diff(spec_view(graph.nodes[root]), {x: got[x] for x in COMPARE})
+        got = adapter["observe"](impl)
+        d0 = diff(adapter["expect"](graph.nodes[root]), {k: v for k, v in got.items() if k != "_extra"})
         if d0:
             return 0, 0, len(rep), [dict(path=[], label="<init>", diff=d0)], []
         # explicit stack: (node, path labels, saved state, iterator over work items)
@@ -711,7 +727,7 @@ def replay_class_tree(p: Program, graph: tlc.Graph, *, seed=0, deadline=None, co
             items += [("tree", lab, v) for lab, v in children.get(u, ()) if v in needed]
             return iter(items)
 
-        stack = [(root, [], impl.w.eng.save_state(), work(root))]
+        stack = [(root, [], adapter["save"](impl), work(root))]
         while stack and len(mism) < 3:
             if deadline is not None and time.time() > deadline:
                 break
@@ -721,14 +737,13 @@ def replay_class_tree(p: Program, graph: tlc.Graph, *, seed=0, deadline=None, co
                 stack.pop()
                 continue
             kind, lab, v = item
-            impl.w.eng.load_state(saved)
+            adapter["load"](impl, saved)
             del impl.w.crashes[:]
-            name, args = tlc.parse_action_label(lab)
-            impl.apply(name, [str(a) if isinstance(a, tlaval.Sym) else a for a in args])
+            adapter["apply"](impl, lab)
             steps += 1
             covered.add((u, lab, v))
-            got = impl.project()
-            d = diff(spec_view(graph.nodes[v]), {x: got[x] for x in COMPARE})
+            got = adapter["observe"](impl)
+            d = diff(adapter["expect"](graph.nodes[v]), {k: x for k, x in got.items() if k != "_extra"})
             if "_extra" in got:
                 d["_extra"] = got["_extra"]
             if impl.w.crashes:
@@ -740,7 +755,7 @@ def replay_class_tree(p: Program, graph: tlc.Graph, *, seed=0, deadline=None, co
                 done += 1
                 replay_class_tree.paths += 1        # a path from the initial state ending with this edge was executed and compared
             else:
-                stack.append((v, path + [lab], impl.w.eng.save_state(), work(v)))
+                stack.append((v, path + [lab], adapter["save"](impl), work(v)))
         sqlerrs = [dict(path=[], error=e) for e in impl.sqlerrors]
     finally:
         impl.close()
